@@ -247,13 +247,13 @@ struct Node : Base {
 		Probe& p = c.context(); rec(p, 16, c);
 		const bool prop = p.quiet || p.passive || p.chance(p.k.pPropagate);
 		if (!p.quiet) { p.log->tag('n'); p.log->i(0); p.log->i(ID); p.log->i(prop); p.log->nl(); }
-		if (prop) Base::planSucceeded(c);
+		if (prop) c.succeed();		// what the default handler does (Base:: is ambiguous with two injected layers)
 	}
 	void planFailed(FullControl& c) {
 		Probe& p = c.context(); rec(p, 17, c);
 		const bool prop = p.quiet || p.passive || p.chance(p.k.pPropagate);
 		if (!p.quiet) { p.log->tag('n'); p.log->i(1); p.log->i(ID); p.log->i(prop); p.log->nl(); }
-		if (prop) Base::planFailed(c);
+		if (prop) c.fail();
 	}
 	// plan edits from callbacks: append a task to the plan of the callback's own region
 	template <typename C>
